@@ -321,4 +321,10 @@ def r8(F, R):
     c15.r2(F, R)
 
 
-RULES = [("R6", r6, None), ("R1", r1, None), ("R2", r2, None), ("R3", r3, None), ("R4", r4, None), ("R5", r5, None), ("R7", r7, None), ("R8", r8, None)]
+def r9_clone(F, R):
+    """CLI and retry option values are cloned between `Runner::run`, the resolver and the queue: a clone keeps every field."""
+    n = roles.check_clone_faithful_table(F, R, r"^cli::|^runner::basic::(Cli|RetryOptions)", "clone-faithful")
+    R.floor(3)
+
+
+RULES = [("R6", r6, None), ("R1", r1, None), ("R2", r2, None), ("R3", r3, None), ("R4", r4, None), ("R5", r5, None), ("R7", r7, None), ("R8", r8, None), ("R9", r9_clone, None)]
